@@ -309,6 +309,13 @@ VALID_OPTS = [
     'tech:option_example="a b"', 'tech:reporttimes=1', 'tech:timing=1', 'timing=1', 'tech:version', 'version',
     'tech:writegraph=g.jsonl', 'tech:writemodel=m.lp', 'tech:writemodelonly=m2.lp', 'tech:writesolution=s.sol',
     'tech:optionfile=opts.txt', 'outlev=1', 'timing=1 cvt:pre:all=0 objno=1', 'wantsol=1', 'cvt:names = 2', 'debug 1',
+] + [
+    # two valid assignments in one string, every ordered pair of an extreme-but-valid real value and an integer value: the
+    # outcome of one assignment must not depend on the one parsed before it (subnormal / underflowing / huge reals, zero, +sign)
+    '%s %s' % ((a, b) if order == 0 else (b, a))
+    for a in ('cvt:mip:eps=1e-320', 'sol:chk:feastol=1e-400', 'cvt:plapprox:reltol=4e-324', 'cvt:bigM=1e300', 'cvt:mip:eps=0')
+    for b in ('objno=1', 'tech:timing=0', 'sol:chk:mode=3', 'tech:int_example=7')
+    for order in (0, 1)
 ]
 # outlev is not an option of this driver => it belongs to the unknown-name class (handled below)
 BAD_OPTS = [   # (name, option string, regex the diagnosis must match, strict?)
@@ -390,6 +397,33 @@ def enumerate_cases(tier):
     # ---- (c) unsupported -----------------------------------------------------------------------
     for name, text, rx in unsupported_models():
         C.append(mkcase('unsupported/' + name, 'unsupported:' + name, 'unsup', nl=text, expect={'msg': rx}))
+    # ---- (c2) invalid suffix data: SOS sets whose weights repeat (the order of the set is undefined) -------------
+    VS = [(0.0, 2.0, False, 0.5), (0.0, 2.0, False, 1.0), (0.0, 2.0, True, 1.0)]
+    VL = [(0.0, 1.0, False, 0.5), (0.0, 1.0, False, 0.5), (0.0, 1.0, False, 0.5)]
+    for sfx, rfx, V, rows in (('sosno', 'ref', VS, [(None, {0: 1.0, 1: 1.0, 2: 1.0}, 1.0, INF)]),
+                              ('sos', 'sosref', VL, [(None, {0: 1.0, 1: 1.0, 2: 1.0}, 1.0, 1.0)])):
+        for sn, so in (('sos1', {0: 1, 1: 1, 2: 1}), ('sos2', {0: -2, 1: -2, 2: -2}), ('two-sets', {0: 3, 1: 3, 2: 4})):
+            if sfx == 'sos' and sn != 'sos1': continue     # .sos numbers are all SOS2 (AMPL's PL linearisation)
+            for wn, rf, valid in (('distinct', {0: 1.0, 1: 2.0, 2: 3.0}, True), ('distinct-with-0', {1: 5.0, 2: 7.0}, True),
+                                  ('repeated-nonzero', {0: 2.0, 1: 2.0, 2: 6.0}, False), ('repeated-zero', {2: 3.0}, False),
+                                  ('repeated-last', {0: 1.0, 1: 4.0, 2: 4.0}, False), ('all-equal', {0: 1.0, 1: 1.0, 2: 1.0}, False)):
+                if sn == 'two-sets':
+                    bad_here = rf.get(0, 0.0) == rf.get(1, 0.0)     # only members 0 and 1 share a set
+                else:
+                    bad_here = not valid
+                # mp documents one tolerance: repeated weight 0 in .sos/.sosref sets ("redundant PL linearization")
+                lenient = bad_here and sfx == 'sos' and wn == 'repeated-zero'
+                m = Model(V, acons=rows, obj=('max', None, {0: 1.0, 1: 2.0, 2: 1.0}),
+                          suffixes=[(0, False, sfx, so), (0, True, rfx, rf)])
+                # acceptance: the scripted solver takes SOS sets natively / the default table (no SOS: a valid general set is then
+                # a construct the converter does not support, and says so; AMPL's PL sets are converted)
+                for an, script in (('native', {'acc': 'default=2'}), ('converted', None)):
+                    if not bad_here:
+                        kind = 'unsup' if (an == 'converted' and sfx == 'sosno') else 'ok'
+                    else:
+                        kind = 'baddata_lenient' if lenient else 'baddata'
+                    C.append(mkcase('sosdata/%s/.%s/%s/%s' % (an, sfx, sn, wn), 'sosdata(%s):.%s:%s:%s' % (an, sfx, sn, wn if bad_here else 'valid'), kind,
+                                    nl=m.nl(), script=script, expect={'msg': r'SOS' if kind == 'unsup' else r'(?i)weight'}))
     # ---- (d) needs bounds ----------------------------------------------------------------------
     for name, m in needbounds_models():
         C.append(mkcase('needbounds/' + name, 'needbounds:' + name.split(' ', 1)[1] + ':' + name.split(' ')[0], 'needb', nl=m.nl(),
@@ -868,6 +902,13 @@ def judge(c, r, fault_k=None):
             bad('C09 invalid option not diagnosed (run succeeded with the scripted code): ' + sig_label(c), message=msg[:200])
         elif not re.search(c['expect']['msg'], msg.split(':', 1)[-1] + r['err']):
             bad('C09 message does not name the invalid option: ' + sig_label(c), message=msg[:300], expected=c['expect']['msg'])
+    elif k in ('baddata', 'baddata_lenient'):
+        if succeeded and k == 'baddata_lenient':
+            oc += ',accepted'
+        elif succeeded:
+            bad('C09 invalid suffix data not diagnosed (run succeeded with the scripted code): ' + sig_label(c), message=msg[:200])
+        elif not (code_in(500, 999) and re.search(c['expect']['msg'], msg)):
+            bad('C09 message does not name the invalid suffix data: ' + sig_label(c), message=msg[:300], code=code)
     elif k == 'input':
         if not succeeded and rep is None:
             bad('C09 malformed/deviating input: solve code class %s without a diagnosis: %s' % (codeclass(code), c['cls']), code=code, message=msg[:300])
@@ -894,7 +935,7 @@ def failure_kind(msg):
     if re.search(r'MaxAbs \[Name\]', body): return 'solution check violation'
     if re.search(r'Model infeasible', body): return 'infeasibility proven during conversion'
     if re.search(r'\.(nl|col|row):\d+:\d+: |\.nl: |duplicate suffix', body): return 'NL read error'
-    if re.search(r'(?i)\bunsupported\b|not implemented', body): return 'unsupported construct'
+    if re.search(r'(?i)\bunsupported\b|not implemented|nor is conversion implemented', body): return 'unsupported construct'
     if re.search(r'(?i)unknown option|invalid value|for option|Option "[^"]*" doesn|option name|option file|obj(no|:no)', body): return 'invalid option'
     if re.search(r'(?i)\bbound|big-?M|finite', body): return 'missing bounds'
     if re.search(r'(?i)error|fail|cannot|not supported|exception|bad_alloc|invalid|expected', body): return 'other failure'
